@@ -405,7 +405,53 @@ def r10(ctx):
     ctx.floor(R, 1)
 
 
+def r11(ctx, R="C05-R11"):
+    ctx.rule(R, "host code never runs outside its runtime - destructors included: the software's tasks live in Rt::local (the LocalSet); when "
+                "Rt::cancel_tasks (crash / bounce) destroys the old LocalSet, every task's destructors run, and tokio's Instant::now() inside "
+                "them is the virtual clock only while a runtime is entered - otherwise it is the machine's wall clock. The old LocalSet must "
+                "therefore be destroyed after a tokio Runtime::enter on the function's path and before that guard is gone")
+    ct = ctx.body(R, "turmoil::rt::Rt::cancel_tasks")
+    if not ct:
+        return
+    LS = "tokio::task::LocalSet"
+    # where the old LocalSet is destroyed: mem::drop(value of mem::replace(&mut self.local, ..)), the drop of that temporary, or an
+    # assignment to the field (drop in place)
+    sites = []
+    reps = [(bb, t) for bb, t in ct.calls(re.compile(r"^std::mem::(replace|take|swap)$")) if t["args"] and "field:turmoil::rt::Rt::local" in Slicer(ctx.w).atoms(ct, t["args"][0])]
+    rep_locals = {t["d"]["l"] for bb, t in reps}
+    for bb, t in ct.calls(re.compile(r"^std::mem::drop$")):
+        o = origin(ct, t["args"][0])
+        if o["k"] == "call" and o["t"]["d"]["l"] in rep_locals:
+            sites.append((bb, t["s"]))
+        elif "call:std::mem::replace" in Slicer(ctx.w).atoms(ct, t["args"][0]) and ct.tys[t["at"][0]]["s"].endswith("LocalSet") if t.get("at") else False:
+            sites.append((bb, t["s"]))
+    moved = {op_place(a)["l"] for bb, t in ct.calls() for a in t["args"] if isinstance(a, dict) and "m" in a and op_place(a) and not op_place(a).get("p")}
+    moved |= {op_place(s2["r"]["o"])["l"] for bb, i, s2 in ct.all_stmts() if i != "term" and s2["r"]["k"] == "use" and isinstance(s2["r"]["o"], dict) and "m" in s2["r"]["o"] and op_place(s2["r"]["o"]) and not op_place(s2["r"]["o"]).get("p")}
+    for bb in sorted(ct.reachable(0)):
+        t = ct.term(bb)
+        if t["k"] == "drop" and isinstance(t.get("ty"), int) and ct.tys[t["ty"]].get("s") == LS:
+            l = t["p"]["l"]
+            if t.get("replace") or (l in rep_locals and l not in moved):
+                sites.append((bb, t.get("s") or ct.span))
+    enters = [(bb, t) for bb, t in ct.calls(re.compile(r"^tokio::runtime::Runtime::enter$|^tokio::runtime::Handle::enter$"))]
+    ok = False
+    for sb, ss in sites:
+        for eb, et in enters:
+            g = et["d"]["l"]
+            gdrops = [bb for bb in ct.reachable(0) if ct.term(bb)["k"] == "drop" and ct.term(bb)["p"]["l"] == g]
+            gdrops += [bb for bb, t in ct.calls(re.compile(r"^std::mem::drop$")) if op_place(t["args"][0]) and origin(ct, t["args"][0]).get("bb") == eb]
+            if ct.dominated_by_block(sb, eb) and (not gdrops or all(sb not in ct.reachable(x) or x == sb for x in gdrops)):
+                ok = True
+    ctx.inst(R, "cancel_tasks:tasks-dropped-inside-runtime", bool(sites) and ok, sites[0][1] if sites else ct.span,
+             "the old LocalSet is destroyed while a runtime is entered" if sites and ok else
+             ("Rt::cancel_tasks destroys the old LocalSet (the host's tasks) outside any runtime: a destructor run by Sim::crash / Sim::bounce that reads tokio::time::Instant "
+              "(`start.elapsed()` in a guard's Drop) gets the machine's wall clock - 5-27 ms instead of the 2 s of virtual time that passed, different on every run" if sites else
+              "no destruction of the old LocalSet found in Rt::cancel_tasks: re-derive"))
+    ctx.floor(R, 1)
+
+
 def run(ctx):
+    r11(ctx)
     r10(ctx)
     from . import C04
     C04.r2(ctx)   # a bounced host always starts on a fresh runtime: timers of the old one would be off by the whole idle time
